@@ -75,6 +75,14 @@ pub fn baseline() -> Value {
             "examples": [{"url": "/t/b/v-1f", "method": null, "headers": null, "ip_address": null, "response_status_code": null, "must_match": true, "unit_ids_applied": []}],
             "redirect_unit_id": null, "configuration_log_unit_id": null, "configuration_reset_unit_id": null, "target_hash": null
         },
+        "rule3": {
+            "id": "third", "rank": 1,
+            "source": {"scheme": null, "host": "xé2@g.example.org", "ips": null, "path": "/never/@k", "query": null, "headers": null, "methods": null, "exclude_methods": null,
+                       "response_status_codes": null, "exclude_response_status_codes": null, "sampling": null},
+            "target": "/t/@k", "status_code": 302, "markers": [{"name": "g", "regex": "(www|api)", "transformers": []}, {"name": "k", "regex": "[a-z]+", "transformers": []}], "variables": [],
+            "body_filters": null, "header_filters": null, "log_override": null, "reset": null, "stop": null, "examples": null,
+            "redirect_unit_id": null, "configuration_log_unit_id": null, "configuration_reset_unit_id": null, "target_hash": null
+        },
         "request": {"path": "/p/abc/x?b=2&a=1&utm_source=s", "host": "www.example.org", "scheme": "https", "method": "GET",
                     "headers": [["X-Foo", "v-1f"], ["User-Agent", "ua"], ["X-Forwarded-For", "10.0.0.9, 10.0.0.8"], ["Forwarded", "for=\"10.0.0.7\";proto=https"], ["Referer", "r"]],
                     "ip": "10.0.0.1", "time": "2024-06-01T10:00:00Z", "sampling_override": null},
@@ -162,8 +170,10 @@ pub fn deviations() -> Vec<(String, Vec<Value>)> {
     add("/rule/source/weekdays", vec![json!([]), json!(["Blursday"]), json!([""]), Value::Null, json!(["monday", "MON", "Mon"])]);
     add("/rule/source/scheme", vec![Value::Null, json!(""), json!("ftp"), json!("HTTPS")]);
     let mut hosts = strings();
-    hosts.extend([json!("@h"), json!("@h.@h.example.org"), json!("www.example.org"), Value::Null]);
+    hosts.extend([json!("@h"), json!("@h.@h.example.org"), json!("www.example.org"), Value::Null, json!("xé1@h.example.org"), json!("éé@h.example.org"), json!("xé2@h.example.org")]);
     add("/rule/source/host", hosts);
+    add("/rule3/source/host", vec![Value::Null, json!("www.example.org"), json!("@g.example.org"), json!("éé1@g.example.org"), json!("@h.example.org.evil")]);
+    add("/rule3/source/path", vec![json!("/p/@k/x"), json!("/p/@k"), json!("/é/@k"), json!("/p/@k/x/y")]);
     let mut paths = strings();
     paths.extend([json!("/p/@m/@m/x"), json!("@m"), json!("/p/@m@n/x"), json!("/p/@mm/x"), json!("/p/é/@m/x"), json!("p"), json!("/p/@m/x#frag"), json!("/p/@m/x?in=path")]);
     add("/rule/source/path", paths);
@@ -330,6 +340,8 @@ pub const BODY_IDS: &[&str] = &[
     "many-attributes",
     "nul-bytes",
     "lt-flood",
+    "stray-continuation-bytes",
+    "lone-lead-bytes",
 ];
 
 pub fn body_bytes(id: &str) -> Vec<u8> {
@@ -412,6 +424,8 @@ pub fn body_bytes(id: &str) -> Vec<u8> {
         }
         "nul-bytes" => b"<html>\0<body\0>\0<div a=\0>\0</div></body></html>".to_vec(),
         "lt-flood" => std::iter::repeat(b'<').take(300000).collect(),
+        "stray-continuation-bytes" => b"<html><body><p>ok</p>\xbf<p>x</p>\x80\x80<div>d</div>\xa0\x85\xbf</body></html>".to_vec(),
+        "lone-lead-bytes" => b"<html><body><p>ok</p>\xc3<p>x</p>\xe2\x82<div>d</div>\xf0\x9f\x98</body></html>\xf0".to_vec(),
         _ => html,
     }
 }
@@ -553,7 +567,8 @@ pub fn run_bundle(b: &Value) -> Vec<PanicInfo> {
     let rule: Option<Rule> = g.run("Rule::deserialize", || serde_json::from_value::<Rule>(b["rule"].clone()).ok()).flatten();
     let rule2: Option<Rule> = g.run("Rule::deserialize", || serde_json::from_value::<Rule>(b["rule2"].clone()).ok()).flatten();
     g.run("Rule::from_json", || Rule::from_json(&b["rule"].to_string()));
-    let rules: Vec<Rule> = rule.iter().chain(rule2.iter()).cloned().collect();
+    let rule3: Option<Rule> = g.run("Rule::deserialize", || serde_json::from_value::<Rule>(b["rule3"].clone()).ok()).flatten();
+    let rules: Vec<Rule> = rule.iter().chain(rule2.iter()).chain(rule3.iter()).cloned().collect();
 
     // router
     let router: Option<Router<Rule>> = g.run("Router::insert", || {
@@ -660,7 +675,7 @@ pub fn run_bundle(b: &Value) -> Vec<PanicInfo> {
     // analyses, both entry-point families
     let max_hops = b["analysis"]["max_hops"].as_u64().unwrap_or(5);
     let domains = b["analysis"]["project_domains"].clone();
-    let rules_json: Vec<Value> = [&b["rule"], &b["rule2"]].iter().filter(|r| serde_json::from_value::<Rule>((**r).clone()).is_ok()).map(|r| (*r).clone()).collect();
+    let rules_json: Vec<Value> = [&b["rule"], &b["rule2"], &b["rule3"]].iter().filter(|r| serde_json::from_value::<Rule>((**r).clone()).is_ok()).map(|r| (*r).clone()).collect();
     let example_ok = serde_json::from_value::<Example>(b["example"].clone()).is_ok();
     let shared = Arc::new(uncached.clone());
     let empty_cs = json!({"added": [], "updated": [], "deleted": []});
